@@ -28,6 +28,17 @@ def gen_arg(rng):
     return "".join(rng.choice(PIECES) for _ in range(rng.randint(0, 5)))
 
 
+SEPS = ["\u2028", "\u2029", "\x85", "\x0b", "\x0c", "\x1c", "\x1d", "\x1e", "\xa0", "\u3000"]
+
+
+def gen_pre_text(rng):
+    """preamble code with characters on which `str.splitlines`/`str.strip` and the tokenizer disagree, raw inside a
+    string constant or a comment (valid Python: only \\n and \\r end a line for the tokenizer)"""
+    sep = rng.choice(SEPS)
+    return rng.choice(['S = "a%sb"' % sep, "T = 'x%sy'  # c%sd" % (sep, sep), "# only a comment %s here" % sep,
+                       'import os\nU = """m%sn"""' % sep, "V = 1"])
+
+
 def gen_argv(rng):
     return ["/usr/bin/json2models"] + [gen_arg(rng) for _ in range(rng.randint(0, 5))]
 
@@ -46,6 +57,11 @@ def correspondence(ctx, batch):
             text = ans["ok"]
             batch.add({"op": "headerok", "in": text}, stages.impl_call(lambda: header_value_cpython(text)),
                       {"text": text, "project": "header-value"})
+    # the CLI's preamble normalisation (`strip`, empty -> None) on the real set_args; str.isspace over all code points
+    for _ in range(ctx.n(150, 2000)):
+        pre = rng.choice(["", " ", "\n", "\t# x\n"]) + gen_pre_text(rng) + rng.choice(["", " ", "\n\n", "\u2028", "\x0c"])
+        stages.stage_setargs(batch, [], [], [], False, rng.choice([pre, pre, None, ""]))
+    stages.stage_spaces(batch)
     registry = stages.make_registry()
     for _ in range(ctx.n(60, 800)):
         job = common.gen_job(rng)
@@ -147,7 +163,7 @@ def falsify(ctx):
             weird = gen_arg(rng)
             # the preamble is code: the odd characters go into a comment or a string constant of valid Python
             pre = rng.choice(["# " + weird.replace("\n", " ").replace("\r", " "), "X = " + repr(weird),
-                              "import os\nY = " + repr(weird) + "  # c", "  \n", ""])
+                              "import os\nY = " + repr(weird) + "  # c", "  \n", "", gen_pre_text(rng), gen_pre_text(rng)])
             extra = gen_arg(rng).replace("\x00", "")
             base = ["-m", "Root", rng.choice(["d.json", "plain.json"]), "-f", rng.choice(common.FRAMEWORKS + ["base", "base"]),
                     "--dict-keys-fields", extra or "x"]
